@@ -25,11 +25,11 @@ def main():
     try:
         demo_dst = os.path.join(wt, ddir, "zz_seed_demo_test.go")
         shutil.copy(demo, demo_dst)
-        rc0, out0 = sh("go test -vet=off -count=1 -run '%s' ./%s" % (rx, ddir), cwd=wt)
+        rc0, out0 = sh("go test %s -vet=off -count=1 -run '%s' ./%s" % (os.environ.get("SEED_GOTEST_FLAGS", ""), rx, ddir), cwd=wt)
         meta["demo_passes_without_change"] = rc0 == 0
         rc, out = sh("git apply %s" % patch, cwd=wt)
         assert rc == 0, "patch does not apply: " + out
-        rc1, out1 = sh("go test -vet=off -count=1 -run '%s' ./%s" % (rx, ddir), cwd=wt)
+        rc1, out1 = sh("go test %s -vet=off -count=1 -run '%s' ./%s" % (os.environ.get("SEED_GOTEST_FLAGS", ""), rx, ddir), cwd=wt)
         meta["demo_fails_with_change"] = rc1 != 0
         os.unlink(demo_dst)
         rc2, out2 = sh("go build ./... && go test -vet=off -count=1 ./...", cwd=wt)
@@ -63,7 +63,7 @@ def main():
     os.makedirs(d, exist_ok=True)
     shutil.copy(patch, os.path.join(d, "patch.diff"))
     shutil.copy(demo, os.path.join(d, "demo_test.go.txt"))
-    meta["demo"] = dict(file="demo_test.go.txt (copy into %s/ as *_test.go)" % ddir, run="go test -vet=off -count=1 -run '%s' ./%s" % (rx, ddir))
+    meta["demo"] = dict(file="demo_test.go.txt (copy into %s/ as *_test.go)" % ddir, run="go test %s -vet=off -count=1 -run '%s' ./%s" % (os.environ.get("SEED_GOTEST_FLAGS", ""), rx, ddir))
     json.dump(meta, open(os.path.join(d, "meta.json"), "w"), indent=1)
     print(json.dumps(dict(id=sid, confirmed=confirmed, detected_by=meta["detected_by"], checks={p: (r["exit"], r["keys"][:2]) for p, r in results.items()}), indent=1))
 
